@@ -95,3 +95,18 @@ def run(ctx):
         keeps = [b for b, e in prims.ret_variants(fv) if show(e) in ('base', '*base')] or [b for b, e in prims.ret_variants(fv)]
         lt = [g for i in fv.live_blocks() for g in guard_strs(fv, i) if re.search(r'PartialOrd::lt|<', g)]
         ctx.ob(bool(lt), '%s compares the two time points and keeps the earlier' % nm, 'fold-min|' + nm, loc=fv.loc())
+
+    # ------------------------------------------------------------ R-C08-3 (added after seed C07-2)
+    ctx.rule('R-C08-3', 'T3 must-pass-through', 'deadline timers - whose expiry needs no socket write (CONNACK deadline, PINGRESP deadline, ack-timeout heap) - are consulted on every path of the state\'s next-service-time function, in particular while a write completion is pending; only send-type work (next ping, queues) may be skipped then')
+    DEADLINES = (('get_next_service_timepoint_pending_connack', 'connack_timeout_timepoint'), ('get_next_service_timepoint_connected', 'ping_timeout_timepoint'),
+                 ('get_next_service_timepoint_connected', 'operation_ack_timeouts'), ('get_next_service_timepoint_pending_disconnect', 'operation_ack_timeouts'))
+    for nx, t in DEADLINES:
+        v = ctx.fn('ProtocolState::' + nx)
+        ok, rb, bad = prims.consulted_on_every_return(v, t)
+        ctx.ob(ok, '%s: every return has consulted `%s`%s' % (nx, t, '' if ok else ' — a return at %s is reachable without it' % v.loc(bad)), 'deadline|%s|%s' % (nx, t), loc=v.loc())
+    # the service functions test those deadlines before (or regardless of) the write-pending gate
+    for sv, t, callee in (('service_pending_connack', 'connack_timeout_timepoint', 'ProtocolState::service_queue'),):
+        v = ctx.fn('ProtocolState::' + sv)
+        rb = prims.field_read_blocks(v, t)
+        qs = v.calls(callee)
+        ctx.ob(bool(rb) and bool(qs) and all(any(v.dominates(b, c.bb) for b in rb) for c in qs), '%s compares `%s` with the clock before servicing the queue' % (sv, t), 'deadline-first|%s|%s' % (sv, t), loc=v.loc())
